@@ -173,9 +173,9 @@ def _evaluate(sdir, tier, all_checks=False, force_base=False):
             os.makedirs(os.path.join(d, 'MUTANT'), exist_ok=True)
             shutil.copy(demo_src, os.path.join(d, 'MUTANT', 'demo.py'))
             env0 = dict(os.environ, PYTHONDONTWRITEBYTECODE='1')
-            rc1, _o = sh([PY, 'MUTANT/demo.py'], cwd=d, env=env0, timeout=180)
+            rc1, _o = sh([PY, 'MUTANT/demo.py', d], cwd=d, env=env0, timeout=180)
             sh(['git', 'stash', '-q'], cwd=d)
-            rc0, _o = sh([PY, 'MUTANT/demo.py'], cwd=d, env=env0, timeout=180)
+            rc0, _o = sh([PY, 'MUTANT/demo.py', d], cwd=d, env=env0, timeout=180)
             sh(['git', 'stash', 'pop', '-q'], cwd=d)
             neutral = (rc1 == 0 or rc0 != 0)
             if neutral:
@@ -201,7 +201,7 @@ def _evaluate(sdir, tier, all_checks=False, force_base=False):
         if os.path.exists(demo):
             os.makedirs(os.path.join(d, 'MUTANT'), exist_ok=True)
             shutil.copy(demo, os.path.join(d, 'MUTANT', 'demo.py'))
-            rc0, out0 = sh([PY, 'MUTANT/demo.py'], cwd=d, env=env, timeout=180)
+            rc0, out0 = sh([PY, 'MUTANT/demo.py', d], cwd=d, env=env, timeout=180)
             res['demo_unpatched_rc'] = rc0
         checks = [pid]
         if all_checks:
@@ -215,7 +215,7 @@ def _evaluate(sdir, tier, all_checks=False, force_base=False):
         sh(['git', 'stash', 'pop', '-q'], cwd=d)
         res['pytest'] = pytest_summary(d)
         if os.path.exists(demo):
-            rc1, out1 = sh([PY, 'MUTANT/demo.py'], cwd=d, env=env, timeout=180)
+            rc1, out1 = sh([PY, 'MUTANT/demo.py', d], cwd=d, env=env, timeout=180)
             res['demo_patched_rc'] = rc1
         res['checks'] = {}
         for c in checks:
